@@ -113,6 +113,36 @@ func (e *scaleEnv) expOfAmount(x ast.Expr) (lin, bool) {
 		case "arg1":
 			return e.expValue(v.Args[1])
 		}
+		// the one-sided rescalers: the larger (smaller) of the receiver's exponent and the
+		// argument — their bodies are decided on their own (c05Extremum)
+		if isAmountMethod(fn, "RescaleUp") || isAmountMethod(fn, "RescaleDown") || isAmountMethod(fn, "MatchPrecision") {
+			if len(v.Args) != 1 {
+				return nil, false
+			}
+			a, ok1 := e.expOfAmount(core.RecvExpr(v))
+			var b lin
+			var ok2 bool
+			if fn.Name() == "MatchPrecision" {
+				b, ok2 = e.expOfAmount(v.Args[0])
+			} else {
+				b, ok2 = e.expValue(v.Args[0])
+			}
+			if !ok1 || !ok2 {
+				return nil, false
+			}
+			if a.eq(b) {
+				return a, true
+			}
+			op := "max"
+			if fn.Name() == "RescaleDown" {
+				op = "min"
+			}
+			x, y := a.String(), b.String()
+			if y < x {
+				x, y = y, x
+			}
+			return lin{op + "(" + x + "," + y + ")": 1}, true
+		}
 	case *ast.CompositeLit:
 		if _, ef, ok := e.literal(v); ok {
 			return ef, true
@@ -951,6 +981,155 @@ func C05(c *core.Ctx) {
 	c05Percentage(c)
 	c05Split(c)
 	c05Threshold(c)
+	c05Extremum(c)
+}
+
+// c05Extremum: RescaleUp hands back the amount at the larger of its exponent
+// and the argument, RescaleDown at the smaller, MatchPrecision is RescaleUp to
+// the other amount's exponent — the facts the scale forms rely on. Each return
+// is judged with the comparisons known true or false where it stands.
+func c05Extremum(c *core.Ctx) {
+	p := c.P
+	for _, nm := range []string{"RescaleUp", "RescaleDown"} {
+		fd := p.Func("num", "Amount", nm)
+		if fd == nil {
+			c.Ob("C05-R2", "UNRESOLVED:num.Amount."+nm, token.NoPos, false, "method not found")
+			continue
+		}
+		info := fd.Pkg.TypesInfo
+		recv := recvVar(fd)
+		sig := fd.Obj.Type().(*types.Signature)
+		if sig.Params().Len() != 1 {
+			c.Undecided("C05-R2", fd.Name()+"#extremum", fd.Decl.Pos(), "unexpected signature")
+			continue
+		}
+		param := sig.Params().At(0)
+		ff := core.NewFuncFlow(fd)
+		isRecvExp := func(x ast.Expr) bool {
+			x = ast.Unparen(x)
+			if se, ok := x.(*ast.SelectorExpr); ok && se.Sel.Name == "exp" && core.VarOf(info, se.X) == recv {
+				return true
+			}
+			if call, ok := x.(*ast.CallExpr); ok {
+				if fn := core.Callee(info, call); fn != nil && fn.Name() == "Exp" && core.VarOf(info, core.RecvExpr(call)) == recv {
+					return true
+				}
+			}
+			return false
+		}
+		// relation of param to recv.exp known at a node: bit 1 `<`, 2 `==`, 4 `>` still possible
+		relAt := func(at ast.Node) int {
+			poss := 7
+			for leaf, val := range ff.Flow.CondsAt(at) {
+				be, ok := ast.Unparen(leaf).(*ast.BinaryExpr)
+				if !ok {
+					continue
+				}
+				var set int // relations (param ? recv.exp) for which the comparison is true
+				pl := core.VarOf(info, be.X) == param && isRecvExp(be.Y)
+				pr := core.VarOf(info, be.Y) == param && isRecvExp(be.X)
+				if !pl && !pr {
+					continue
+				}
+				switch be.Op {
+				case token.LSS:
+					set = 1
+				case token.LEQ:
+					set = 3
+				case token.GTR:
+					set = 4
+				case token.GEQ:
+					set = 6
+				case token.EQL:
+					set = 2
+				case token.NEQ:
+					set = 5
+				default:
+					continue
+				}
+				if pr { // recv.exp OP param: mirror
+					m := 0
+					if set&1 != 0 {
+						m |= 4
+					}
+					if set&2 != 0 {
+						m |= 2
+					}
+					if set&4 != 0 {
+						m |= 1
+					}
+					set = m
+				}
+				if !val {
+					set = 7 &^ set
+				}
+				poss &= set
+			}
+			return poss
+		}
+		n := 0
+		for _, r := range ff.Flow.Returns() {
+			if !ff.Flow.Reachable(r) || len(r.Results) != 1 {
+				continue
+			}
+			n++
+			key := fmt.Sprintf("%s#extremum%d", fd.Name(), n)
+			poss := relAt(r)
+			res := ast.Unparen(r.Results[0])
+			// which exponent does the result carry?
+			carries := ""
+			if core.VarOf(info, res) == recv {
+				carries = "recv"
+			} else if call, ok := res.(*ast.CallExpr); ok && isAmountMethod(core.Callee(info, call), "Rescale") && core.VarOf(info, core.RecvExpr(call)) == recv && len(call.Args) == 1 && core.VarOf(info, call.Args[0]) == param {
+				carries = "param"
+			}
+			if carries == "" {
+				c.Undecided("C05-R2", key, r.Pos(), "the result is neither the receiver nor the receiver rescaled to the argument")
+				continue
+			}
+			// RescaleUp: result must be max: param only where param >= recv.exp, recv only where param <= recv.exp
+			var allowed int
+			switch {
+			case nm == "RescaleUp" && carries == "param", nm == "RescaleDown" && carries == "recv":
+				allowed = 6 // param >= recv.exp
+			default:
+				allowed = 3 // param <= recv.exp
+			}
+			c.Ob("C05-R2", key, r.Pos(), poss&^allowed == 0, fmt.Sprintf("%s returns the amount at the %s's exponent where the argument may be %s the receiver's exponent: the result is not the %s of the two, which MatchPrecision and every precision-raising accumulation rely on",
+				fd.Name(), map[string]string{"recv": "receiver", "param": "argument"}[carries], map[bool]string{true: "above", false: "below"}[carries == "recv" && nm == "RescaleUp" || carries == "param" && nm == "RescaleDown"], map[string]string{"RescaleUp": "larger", "RescaleDown": "smaller"}[nm]))
+		}
+		if n == 0 {
+			c.Undecided("C05-R2", fd.Name()+"#extremum", fd.Decl.Pos(), "no return found")
+		}
+	}
+	if fd := p.Func("num", "Amount", "MatchPrecision"); fd != nil {
+		info := fd.Pkg.TypesInfo
+		recv := recvVar(fd)
+		sig := fd.Obj.Type().(*types.Signature)
+		ff := core.NewFuncFlow(fd)
+		n := 0
+		for _, r := range ff.Flow.Returns() {
+			if !ff.Flow.Reachable(r) || len(r.Results) != 1 {
+				continue
+			}
+			n++
+			ok := false
+			if call, isCall := ast.Unparen(r.Results[0]).(*ast.CallExpr); isCall && isAmountMethod(core.Callee(info, call), "RescaleUp") && core.VarOf(info, core.RecvExpr(call)) == recv && len(call.Args) == 1 {
+				arg := ast.Unparen(call.Args[0])
+				if se, isSel := arg.(*ast.SelectorExpr); isSel && se.Sel.Name == "exp" && sig.Params().Len() == 1 && core.VarOf(info, se.X) == sig.Params().At(0) {
+					ok = true
+				}
+				if c2, isC := arg.(*ast.CallExpr); isC {
+					if fn := core.Callee(info, c2); fn != nil && fn.Name() == "Exp" && sig.Params().Len() == 1 && core.VarOf(info, core.RecvExpr(c2)) == sig.Params().At(0) {
+						ok = true
+					}
+				}
+			}
+			c.Ob("C05-R2", fmt.Sprintf("%s#extremum%d", fd.Name(), n), r.Pos(), ok, "MatchPrecision is not the receiver raised (RescaleUp) to the other amount's exponent")
+		}
+	} else {
+		c.Ob("C05-R2", "UNRESOLVED:num.Amount.MatchPrecision", token.NoPos, false, "method not found")
+	}
 }
 
 func c05Percentage(c *core.Ctx) {
